@@ -224,6 +224,60 @@ def check_text(out, text, where):
     return True
 
 
+def same_value(kind, a, b, is_date):
+    """Is b (as serialised) the same constraint value as a (as given)?"""
+    if a is None or b is None:
+        return a is None and b is None
+    if kind in ('min', 'max'):
+        (av, ap), (bv, bp) = R.split_bound(a), R.split_bound(b)
+        if ap != bp:
+            return False
+        if is_date and isinstance(av, str):
+            try:
+                return (isinstance(bv, str) and R.parse_date_bound(av)
+                        == R.parse_date_bound(bv))
+            except Exception:
+                return av == bv
+        a, b = av, bv
+    if kind == 'type':
+        return ([a] if isinstance(a, str) else list(a)) == (
+            [b] if isinstance(b, str) else list(b))
+    if isinstance(a, bool) or isinstance(b, bool):
+        return a is b
+    if isinstance(a, (int, float)) and isinstance(b, (int, float)):
+        return a == b
+    return type(a) == type(b) and a == b
+
+
+def check_content(out, cons, text, case):
+    """The serialised set says what the set given says: same fields in the
+    same order, same kinds, same values (date bounds compared as instants,
+    a one-element type list and a bare type name taken as equal)."""
+    got = json.loads(text).get('fields', {})
+    want = cons['fields']
+    if list(got) != list(want):
+        out.violate('content-preserved', 'fields',
+                    'fields given %r, serialised %r' % (list(want), list(got)))
+        return
+    cols = {c['name']: c for c in case['frame']['cols']}
+    for (f, fc) in want.items():
+        known = {k: v for (k, v) in fc.items() if k in c02.KINDS}
+        if set(got[f]) != set(known):
+            out.violate('content-preserved', 'kinds',
+                        'field %r: kinds given %r, serialised %r'
+                        % (f, sorted(known), sorted(got[f])))
+            continue
+        col = cols.get(f)
+        is_date = fc.get('type') == 'date' or (
+            col is not None and R.actual_type(
+                col['kind'], F.py_values(col)) == 'date')
+        for (k, v) in known.items():
+            if not same_value(k, v, got[f][k], is_date):
+                out.violate('content-preserved', 'value:' + k,
+                            'field %r: %s given as %r, serialised as %r'
+                            % (f, k, v, got[f][k]))
+
+
 def run(case, ctx):
     from tdda.constraints import verify_df, discover_df
     from tdda.constraints.base import DatasetConstraints
@@ -276,6 +330,7 @@ def run(case, ctx):
         return out
     if not check_text(out, t1, 'first serialisation'):
         return out
+    check_content(out, cons, t1, case)
     texts = [t1]
     D = D1
     for i in range(case['cycles']):
